@@ -51,6 +51,11 @@ def run_check(pid, tree, tier="quick", seed="1"):
 def main():
     args = sys.argv[1:]
     seeded = "--seeded" in args
+    # --only=<mutation ids, comma separated>   --check=<property ids>: run these checks against those mutations
+    only = [a.split("=", 1)[1].split(",") for a in args if a.startswith("--only=")]
+    only = only[0] if only else None
+    force = [a.split("=", 1)[1].upper().split(",") for a in args if a.startswith("--check=")]
+    force = force[0] if force else None
     ids = [a.upper() for a in args if not a.startswith("--")]
     out = []
     if seeded:
@@ -64,7 +69,9 @@ def main():
         for f in sorted((VERIF / "tools").glob("mutations*.json")):
             muts += json.loads(f.read_text())
     for m in muts:
-        props = [p for p in m["props"] if not ids or p in ids]
+        if only is not None and m["id"] not in only:
+            continue
+        props = force if force else [p for p in m["props"] if not ids or p in ids]
         if not props:
             continue
         tree = make_tree()
@@ -91,7 +98,7 @@ def main():
                 out.append({"mutation": m["id"], "property": pid, "verdict": verdict, "first": first})
         finally:
             drop_tree(tree)
-    if not ids:
+    if not ids and not only and not force:
         (VERIF / "tools" / ("seeded_results.json" if seeded else "mutation_results.json")).write_text(
             json.dumps(out, indent=1))
 
